@@ -979,6 +979,9 @@ func (x *Exec) evalBuiltin(st *State, call *ast.CallExpr, name string) T {
 			r := T{S: app("slc-len", v.S), Ty: tyInt}
 			st.assume(x.rangeFact(v))
 			if name == "cap" {
+				if ct, ok := x.capOf(st, call.Args[0]); ok {
+					return T{S: ct, Ty: tyInt}
+				}
 				c := x.d.freshConst("cap", tyInt)
 				st.assume(fmt.Sprintf("(>= %s %s)", c.S, r.S))
 				return c
